@@ -64,13 +64,6 @@ const TERMS: &[&str] = &[
 /// (origin is a clone, clone taken at len, model front since origin, physical front (information only), len)
 type Key = (bool, usize, usize, usize, usize);
 
-/// local type with the same name, so `#[derive(Debug)]` gives the reference rendering of a
-/// tuple struct called `GenericArrayIter` wrapping the remaining elements.
-mod refdbg {
-    #[derive(Debug)]
-    pub struct GenericArrayIter<'a, T>(pub &'a [T]);
-}
-
 struct Sys<E: Elem, const K: usize>
 where
     Const<K>: IntoArrayLength,
@@ -334,16 +327,17 @@ where
                 nothing_live("rev().collect")?;
             }
             "dbg" | "dbgalt" => {
-                let (g, w) = if t == "dbg" {
-                    (format!("{:?}", self.it), format!("{:?}", refdbg::GenericArrayIter(self.it.as_slice())))
+                // "Debug shows exactly the remaining elements": the element renderings found in the output, in order,
+                // are those of the remaining elements and of no others. The framing around them (struct name, brackets,
+                // indentation under {:#?}) is not pinned by the property and is not compared.
+                let (g, each): (String, Vec<String>) = if t == "dbg" {
+                    (format!("{:?}", self.it), self.it.as_slice().iter().map(|e| format!("{e:?}")).collect())
                 } else {
-                    (format!("{:#?}", self.it), format!("{:#?}", refdbg::GenericArrayIter(self.it.as_slice())))
+                    (format!("{:#?}", self.it), self.it.as_slice().iter().map(|e| format!("{e:#?}")).collect())
                 };
-                // the slice itself was already compared with the queue by check_view
-                let els: Vec<String> = want.iter().map(|_| String::new()).collect();
-                let _ = els;
-                if g != w {
-                    return Err(format!("Debug gave {g:?}, expected {w:?}"));
+                let shown = shown_elements::<E>(&g);
+                if shown != each {
+                    return Err(format!("Debug gave {g:?}, which shows the elements {shown:?}; the remaining elements are {each:?}"));
                 }
                 self.check_view()?;
                 drop(self.it);
@@ -428,6 +422,43 @@ where
         }
         Ok(format!("T:{t}:{}", if n == 0 { "empty" } else { "nonempty" }))
     }
+}
+
+/// the element renderings that occur in a Debug output, in order: `#<digits>` for tracked elements, `Z` for the
+/// zero-sized tracked element, maximal digit runs for plain integers
+fn shown_elements<E: Elem>(out: &str) -> Vec<String> {
+    let b = out.as_bytes();
+    let mut v = Vec::new();
+    let mut i = 0;
+    while i < b.len() {
+        if E::ZST {
+            if b[i] == b'Z' {
+                v.push("Z".to_string());
+            }
+            i += 1;
+        } else if E::TRACKED {
+            if b[i] == b'#' && i + 1 < b.len() && b[i + 1].is_ascii_digit() {
+                let mut j = i + 1;
+                while j < b.len() && b[j].is_ascii_digit() {
+                    j += 1;
+                }
+                v.push(out[i..j].to_string());
+                i = j;
+            } else {
+                i += 1;
+            }
+        } else if b[i].is_ascii_digit() {
+            let mut j = i;
+            while j < b.len() && b[j].is_ascii_digit() {
+                j += 1;
+            }
+            v.push(out[i..j].to_string());
+            i = j;
+        } else {
+            i += 1;
+        }
+    }
+    v
 }
 
 fn build<E: Elem, const K: usize>(hist: &[Op]) -> Result<Sys<E, K>, String>
